@@ -554,6 +554,9 @@ def collection_build(fi: FuncInfo, box: str):
             return collection_build(fi, v.args[0].id)
         m = map_of(v)
         if m is None:
+            via = _via_helper(fi, v, stores[0])
+            if via is not None:
+                return via
             return f"`{norm(v, 60)}` is not an element-wise build"
         return [(*m, stores[0])]
     if not empty:
@@ -586,6 +589,46 @@ def collection_build(fi: FuncInfo, box: str):
         filters = [c for c, _pol in conds(fi, a) if any(parent_is(c, lp))]
         out.append((lp.iter, lp.target, a.args[0], filters, a))
     return out
+
+
+def _via_helper(fi: FuncInfo, v: ast.expr, store: ast.AST):
+    """`box = helper(<source>)` where the helper builds the collection element-wise from its parameter."""
+    if not isinstance(v, ast.Call):
+        return None
+    repo = fi.module.repo  # type: ignore[attr-defined]
+    try:
+        cs, how = types_of(repo).callees(fi, v, byname_fallback=False)
+    except Exception:  # noqa: BLE001
+        return None
+    cs = [c for c in cs if not c.is_abstract]
+    if len(cs) != 1 or how != "repo":
+        return None
+    h = cs[0]
+    names = list(h.param_names)
+    if h.cls is not None and h.outer is None and not h.is_staticmethod and names:
+        names = names[1:]
+    if len(v.args) != len(names) or v.keywords:
+        return None
+    bind = dict(zip(names, v.args))
+    rets = [n for n in own_nodes(h.node) if isinstance(n, ast.Return) and n.value is not None]
+    if len(rets) != 1:
+        return None
+    rv = rets[0].value
+    if isinstance(rv, ast.Call) and isinstance(rv.func, ast.Name) and rv.func.id in ("tuple", "list", "frozenset") and len(rv.args) == 1 and isinstance(rv.args[0], ast.Name):
+        rv = rv.args[0]
+    built = collection_build(h, rv.id) if isinstance(rv, ast.Name) else ([(*map_of(rv), rets[0])] if map_of(rv) is not None else None)
+    if not isinstance(built, list):
+        return None
+    out = []
+    for src, target, elt, filters, node in built:
+        if isinstance(src, ast.Name) and src.id in bind:
+            src = bind[src.id]
+        elif filters is not None and not isinstance(src, ast.Name):
+            pass
+        # names in elt / filters refer to the helper's scope; only re.compile(target) / the target itself are accepted later
+        out.append((src, target, elt, filters, store))
+    # the element expression is resolved in the helper's module: it must be the same module for `re` to mean the same
+    return out if h.module is fi.module else None
 
 
 def parent_is(node: ast.AST, anc: ast.AST):
